@@ -154,7 +154,7 @@ def dup_signature(case, key):
 def run_system_case(ctx, res, seed, cost_kind):
     """adaptive training of a 2-component chain; get_allocation vs ground truth"""
     rng = random.Random(seed)
-    na1 = rng.choice([0, 1])
+    na1 = 1 if cost_kind in ('alpha', 'varying') else rng.choice([0, 1])   # per-fidelity costs need model fidelities
     f1 = lambda alpha, x: {'y1': np.exp(0.4 * x['x0']) * (1 + 0.2 * sum(alpha)) + 0.3 * x['x1']}   # noqa: E731
     f2 = lambda alpha, x: {'y2': np.sin(x['y1']) + 0.5 * x['x1'] ** 2}   # noqa: E731
     from amisc import Component, Variable
